@@ -96,6 +96,8 @@ DECODER_REQS = [
     ]),
     ('bbsplus::keys::BBSplusSecretKey::from_bytes', [
         {'id': 'scalar-range', 'what': 'scalar < r gates acceptance', 'gate_callee': VALIDITY, 'cover': ['bytes']},
+        {'id': 'sk-nonzero', 'what': 'the zero scalar is refused as a secret key (its public key is the identity)',
+         'alts': [{'gate_callee': ['is_zero']}, {'gate_callee': ['PartialEq'], 'const': ['ZERO']}], 'cover': ['bytes']},
     ]),
     ('bbsplus::signature::BBSplusSignature::from_bytes', [
         {'id': 'point-valid', 'what': 'G1 point validity gates acceptance', 'gate_callee': VALIDITY, 'cover': ['data']},
@@ -114,5 +116,21 @@ DECODER_REQS = [
     ]),
     ('bbsplus::commitment::BlindFactor::from_bytes', [
         {'id': 'scalar-range', 'what': 'scalar < r gates acceptance', 'gate_callee': VALIDITY, 'cover': ['bytes']},
+    ]),
+]
+
+
+# the verifier itself refuses what the octet decoders refuse, however the key and the signature objects were built (pub fields, serde)
+ZERO_ALTS = [{'gate_callee': ['is_zero']}, {'gate_callee': ['PartialEq'], 'const': ['ZERO']}]
+VERIFY_VALUE_REQS = [
+    (SIG + 'verify', [
+        {'id': 'pk-nonidentity', 'what': 'the identity public key is refused by the verifier', 'alts': IDENT_ALTS, 'cover': ['pk'], 'pure': ['pk']},
+        {'id': 'A-nonidentity', 'what': 'a signature with A = identity is refused by the verifier', 'alts': IDENT_ALTS, 'cover': ['self'], 'pure': ['self']},
+        {'id': 'e-nonzero', 'what': 'a signature with e = 0 is refused by the verifier', 'alts': ZERO_ALTS, 'cover': ['self'], 'pure': ['self']},
+    ]),
+    (BSIG + 'verify_blind_sign', [
+        {'id': 'pk-nonidentity', 'what': 'the identity public key is refused by the verifier', 'alts': IDENT_ALTS, 'cover': ['pk'], 'pure': ['pk']},
+        {'id': 'A-nonidentity', 'what': 'a signature with A = identity is refused by the verifier', 'alts': IDENT_ALTS, 'cover': ['self'], 'pure': ['self']},
+        {'id': 'e-nonzero', 'what': 'a signature with e = 0 is refused by the verifier', 'alts': ZERO_ALTS, 'cover': ['self'], 'pure': ['self']},
     ]),
 ]
